@@ -298,23 +298,108 @@ def run_case(case: dict) -> dict:
             "hooks": int(all(hooks.values()))}
 
 
+XS = 2                     # Extract replay: coordinates in half lattice units (everything is integral there)
+
+
+def extract_case(rec: dict, emb: str, den: int) -> dict:
+    """A solved state printed by TLC (EMITSOL) -> runnable case for the real extract_solution."""
+    return {"src": "sol", "emb": emb, "den": den, "inst": rec["inst"], "cells": rec["cells"], "ratio": rec["ratio"],
+            "sol": rec["sol"], "placed": rec["placed"]}
+
+
+def run_extract_case(case: dict) -> dict:
+    """Builds the real die / netlist / cells and a synthetic solver model holding the solution, calls
+    tools.glbfloor.optimization.extract_solution and observes what it returns."""
+    import types
+    from frame.geometry.geometry import Rectangle, parse_yaml_rectangle
+    from frame.netlist.netlist import Netlist
+    from frame.die.die import Die
+    import tools.glbfloor.optimization as opt
+
+    emb = EMBEDDINGS[case["emb"]]
+    step, off = float(emb.step), float(emb.off)
+    q = lambda v: int(round((float(v) - off) / step * XS))                   # noqa: E731
+    inst, sol, den = case["inst"], case["sol"], case["den"]
+    Rectangle.undefine_epsilon()
+    mods = {}
+    for i, m in enumerate(inst["mods"]):
+        d: dict = {}
+        if m["kind"] == "soft":
+            d["area"] = emb.area(16)
+            d["center"] = [emb.coord(m["c0"][0]), emb.coord(m["c0"][1])]
+        else:
+            d[m["kind"]] = True
+            d["rectangles"] = [emb.rect(r) for r in m["rects"]]
+            if m["flip"]:
+                d["flip"] = True
+        mods[f"M{i + 1}"] = d
+    names = list(mods)
+    netlist = Netlist({"Modules": mods, "Nets": [names[:2]]})
+    die = Die({"width": emb.length(inst["die"][0]), "height": emb.length(inst["die"][1])}, netlist)
+    cells = [parse_yaml_rectangle(emb.rect(c)) for c in case["cells"]]
+    model = types.SimpleNamespace(a={}, x={}, y={}, d={})
+    for i, (nm, m) in enumerate(zip(names, inst["mods"])):
+        model.a[nm] = {c: float(sol["a"][c][i]) / den for c in range(len(cells))}
+        model.x[nm], model.y[nm] = float(emb.coord(sol["centre"][i][0])), float(emb.coord(sol["centre"][i][1]))
+        model.d[nm] = 0.0
+        if m["kind"] == "hard":
+            for r, pr in enumerate(case["placed"][i]):      # the "fake" module of every rectangle sits where the solution puts it
+                cx, cy, _w, _h = emb.rect(pr)
+                model.x[f"{nm}_{r}"], model.y[f"{nm}_{r}"], model.d[f"{nm}_{r}"] = float(cx), float(cy), 0.0
+
+    def corners(r):
+        cx, cy, w, h = r.center.x, r.center.y, r.shape.w, r.shape.h
+        return [q(cx - w / 2), q(cy - h / 2), q(cx + w / 2), q(cy + h / 2)]
+
+    x2 = lambda rs: [[XS * v for v in r] for r in rs]                          # noqa: E731
+    inst_mods = [{"kind": m["kind"], "flip": m["flip"], "rects": x2(m["rects"]), "c0": [XS * m["c0"][0], XS * m["c0"][1]]}
+                 for m in inst["mods"]]
+    try:
+        die2, alloc, _disp = opt.extract_solution(model, die, cells, inst["thr"] / den)
+    except Exception as e:
+        return {"status": "no_result", "exc": type(e).__name__, "msg": str(e)[:100], "where": "extract_solution",
+                "all_empty": int(all(all(v * 1.0 / den <= 1 - inst["thr"] / den for v in row) for row in sol["a"]))}
+    scale = DEN // den
+    event = {"t": "extract", "cells0": x2(case["cells"]), "ratio0": [[v * scale for v in row] for row in case["ratio"]],
+             "a": [[v * scale for v in row] for row in sol["a"]], "scentre": [[XS * c[0], XS * c[1]] for c in sol["centre"]],
+             "mx": sol["mx"], "my": sol["my"],
+             "cells": [corners(ra.rect) for ra in alloc.allocations],
+             "ratio": [[int(round(ra.alloc.get(nm, 0.0) * DEN)) for nm in names] for ra in alloc.allocations],
+             "centre": [[q(m.center.x), q(m.center.y)] for m in die2.netlist.modules],
+             "mrects": [[] if mm["kind"] == "soft" else [corners(r) for r in m.rectangles]
+                        for m, mm in zip(die2.netlist.modules, inst["mods"])]}
+    return {"status": "ok", "die": [XS * inst["die"][0], XS * inst["die"][1]], "mods": inst_mods,
+            "thr": inst["thr"] * scale, "maxiter": inst["maxiter"], "events": [event], "hooks": 1}
+
+
+def _dispatch(case: dict) -> dict:
+    return run_extract_case(case) if case["src"] == "sol" else run_case(case)
+
+
 # ------------------------------------------------------------------------------------------------ decision
 def decide(ctx: Ctx, cases: list[dict]):
     prepare_imports()
     import tools.glbfloor.optimization  # noqa: F401  (imported in the parent, used only in the children)
     t0 = time.time()
-    results = run_cases(run_case, cases, nproc=16, case_timeout=300)
+    results = run_cases(_dispatch, cases, nproc=16, case_timeout=300)
     ctx.extra["real_runs_wall_s"] = round(time.time() - t0, 1)
     st = ctx.extra.setdefault("runs", {"total": 0, "returned": 0, "no_result": 0, "no_result_by_cause": {},
                                        "snapshots_judged": 0, "optimisations_observed": 0, "refinements_observed": 0,
                                        "without_step_hooks": 0})
     traces, owner = {}, {}
     for c, (status, val) in zip(cases, results):
-        st["total"] += 1
+        st["total"] += c["src"] != "sol"
         feat = {"emb": c["emb"], "src": c["src"]}
         if status != "ok":          # timeout / hard crash of the solver process: the optimiser did not return
             st["no_result"] += 1
             st["no_result_by_cause"][status] = st["no_result_by_cause"].get(status, 0) + 1
+            continue
+        if c["src"] == "sol" and val["status"] == "no_result":
+            # a solution that leaves every cell empty cannot be rebuilt (the specified Extract is not enabled either)
+            xs = ctx.extra.setdefault("extract_replays_not_rebuilt", {"all_cells_empty": 0, "other": 0})
+            xs["all_cells_empty" if val["all_empty"] else "other"] += 1
+            if not val["all_empty"]:
+                ctx.model_drift(f"extract_solution raised {val['exc']} on a solution the specification extracts")
             continue
         if val["status"] == "no_result":
             st["no_result"] += 1
@@ -326,9 +411,11 @@ def decide(ctx: Ctx, cases: list[dict]):
             ctx.violation("off_lattice", c, val, feat)
             continue
         val.pop("status")
-        st["returned"] += 1
-        if not val.pop("hooks"):
-            st["without_step_hooks"] += 1
+        hooks = val.pop("hooks")
+        if c["src"] != "sol":
+            st["returned"] += 1
+            if not hooks:
+                st["without_step_hooks"] += 1
         key = digest(val)
         if key not in traces:
             val["id"] = key
@@ -337,6 +424,16 @@ def decide(ctx: Ctx, cases: list[dict]):
     verdicts = tlc.validate_traces(ctx, "GlbFloorTrace", "GlbFloorTrace", list(traces.values()), chunk=1500)
     for key, v in verdicts.items():
         t, c = traces[key], owner[key]
+        if c["src"] == "sol":
+            ctx.extra["extract_replays_judged"] = ctx.extra.get("extract_replays_judged", 0) + 1
+            mirrored = any(any(c["sol"]["mx"]) or any(c["sol"]["my"]) for _ in (0,))
+            ctx.count(key, nontrivial=mirrored or len(t["events"][0]["cells"]) > 1, n=1)
+            for (l, clause) in v["fails"]:
+                ctx.violation(clause, c, {"event": "extract", "observed": {k: t["events"][0][k] for k in ("cells", "ratio", "centre", "mrects")}},
+                              {"emb": c["emb"], "src": "sol", "event": "extract"})
+            for (l, clause) in v["drift"]:
+                ctx.model_drift(f"{clause} at extract (replayed solution)")
+            continue
         nopt = sum(1 for e in t["events"] if e["t"] == "optimize")
         nref = sum(1 for e in t["events"] if e["t"] == "refine")
         st["snapshots_judged"] += nopt + 1
@@ -352,8 +449,12 @@ def decide(ctx: Ctx, cases: list[dict]):
                           {"emb": c["emb"], "src": c["src"], "event": e["t"]})
         for (l, clause) in v["drift"]:
             ctx.model_drift(f"{clause} at {t['events'][l - 1]['t']}")
-    for t in list(traces.values())[:2]:
-        ctx.sample({"case": owner[t["id"]], "trace": {**t, "events": t["events"][:1] + t["events"][-1:]}})
+    shown = {"sol": 0, "tlc": 0, "rnd": 0}
+    for t in traces.values():
+        src = owner[t["id"]]["src"]
+        if shown[src] < 1:
+            shown[src] += 1
+            ctx.sample({"case": owner[t["id"]], "trace": {**t, "events": t["events"][:1] + t["events"][-1:]}})
 
 
 def run(ctx: Ctx) -> int:
@@ -363,12 +464,12 @@ def run(ctx: Ctx) -> int:
         return ctx.finish("model_checking", "replay of one recorded case")
     tier = ctx.tier
     quick = tier == "quick"
-    tlc.model_check(ctx, "GlbFloorMC", f"GlbFloor_mc_{tier}", vacuity_ignore=("EmitCase",))
+    tlc.model_check(ctx, "GlbFloorMC", f"GlbFloor_mc_{tier}", vacuity_ignore=("EmitCase", "EmitSolved"))
     params = tlc.generate(ctx, "GlbFloorMC", f"GlbFloor_gen_{tier}")
     params.sort(key=canon)
     rng = random.Random(ctx.seed * 1000003 + 10)
     ctx.extra["combinations_from_tlc"] = len(params)
-    params = rng.sample(params, min(len(params), 280 if quick else 5200))     # a seeded sample of the universe is run
+    params = rng.sample(params, min(len(params), 240 if quick else 5200))     # a seeded sample of the universe is run
     cases, skipped = [], 0
     for i, p in enumerate(params):
         c = case_from_tlc(p, EMB_ORDER[i % len(EMB_ORDER)])
@@ -378,6 +479,14 @@ def run(ctx: Ctx) -> int:
             cases.append(c)
     ctx.extra["combinations_not_applicable"] = skipped
     ctx.extra["cases_from_tlc"] = len(cases)
+    # Extract alone: the solutions TLC enumerates (mirrored ones included -- GEKKO's local solver never returns one)
+    sols = tlc.generate(ctx, "GlbFloorMC", f"GlbFloor_sol_{tier}")
+    sols.sort(key=canon)
+    ctx.extra["solutions_from_tlc"] = len(sols)
+    if quick:
+        sols = rng.sample(sols, min(len(sols), 900))
+    cases += [extract_case(r, EMB_ORDER[i % len(EMB_ORDER)], 4) for i, r in enumerate(sols)]
+    ctx.extra["extract_replays"] = len(sols)
     nrnd = 90 if quick else 1800
     cases += [random_case(rng, EMB_ORDER[i % len(EMB_ORDER)]) for i in range(nrnd)]
     ctx.extra["cases_random"] = nrnd
